@@ -221,3 +221,7 @@ impl AccessControlBuiltin {
     }
   }
 }
+
+#[cfg(rustdds_verif)]
+#[path = "/verif/harness/incrate/access/access_control_builtin.rs"]
+mod verif_access;
